@@ -145,7 +145,7 @@ def run(facts, rep, tier, ctx):
     # R03.5 overlay + delegation
     try:
         from . import c09
-        c09.table_u(facts, rep, ws, rule="R03.5", only=("remove_dir", "create_dir", "create_file", "remove_file"))
+        c09.table_u(facts, rep, ws, rule="R03.5", only=("remove_dir", "create_dir", "create_file", "remove_file", "append_file"))
         from . import c10
         c10.marker_rules(facts, rep, ws, prefix="R03.5m", only=("R10.1", "R10.3", "R10.5"))
         # what a listing hides must be exactly what was removed: remove_dir / remove_dir_all decide emptiness and enumerate
@@ -154,12 +154,18 @@ def run(facts, rep, tier, ctx):
         c09.relative_join_rules(facts, rep, ws, rule="R03.5j")
         if wa.present():
             A = c10._Prefixed(rep, "A")
-            c09.table_u(facts, A, wa, rule="R03.5", only=("remove_dir", "create_dir", "create_file", "remove_file"))
+            c09.table_u(facts, A, wa, rule="R03.5", only=("remove_dir", "create_dir", "create_file", "remove_file", "append_file"))
             c10.marker_rules(facts, A, wa, prefix="R03.5m", only=("R10.1", "R10.3", "R10.5"))
             c09.listing_rules(facts, A, wa, rule="R03.5l")
             c09.relative_join_rules(facts, A, wa, rule="R03.5j")
     except ImportError:
         rep.note("overlay rules (C09) not available yet")
+    # R03.8 on disk the tree is well-formed because the OS keeps it so — as long as the observers describe what the OS means: the
+    # physical metadata follows links like exists/read_dir/create_dir do (an lstat makes a linked, non-empty directory "a file")
+    from .. import physrules as _ph
+    for w8 in (ws, wa):
+        if w8.present():
+            _ph.table_o_shape(facts, rep, ("A/" if w8.asyncw else "") + "R03.8p", w8)
     # R03.7 the embedded view is a tree by construction of its index (every ancestor of every file is registered, R18.5): that
     # holds for what the observers report only while they answer from the index and nothing else
     if any(b.impl and b.impl["self_ty"].startswith("impls::embedded::") for b in facts.bodies):
